@@ -691,6 +691,7 @@ type overlapSink struct {
 	overlaps atomic.Int32
 	writes   atomic.Int64
 	syncs    atomic.Int64
+	nbytes   atomic.Int64
 }
 
 func (o *overlapSink) enter() {
@@ -704,6 +705,7 @@ func (o *overlapSink) Write(p []byte) (int, error) {
 	o.enter()
 	defer o.leave()
 	o.writes.Add(1)
+	o.nbytes.Add(int64(len(p)))
 	return len(p), nil
 }
 func (o *overlapSink) Sync() error { o.enter(); defer o.leave(); o.syncs.Add(1); return nil }
@@ -738,6 +740,13 @@ func propC13LockConcurrent(t *rapid.T) {
 	var direct zapcore.WriteSyncer // a second way to the sink that some goroutines use instead (nil: none)
 	perCall := 1                   // calls reaching the sink per call made
 	var bws *zapcore.BufferedWriteSyncer
+	// the buffer is tiny (every write goes through) or roomy (accepted bytes really wait in it - from the very first
+	// Write on, which several goroutines may make at the same moment)
+	bufSize := 2
+	if strings.Contains(wrap, "buffered") {
+		bufSize = rapid.SampledFrom([]int{2, 2, 64, 4096}).Draw(t, "bufferSize")
+	}
+	var accepted atomic.Int64
 	switch wrap {
 	case "lock(multi(lock,lock))", "combine(lock,lock)":
 		// both members end in the same sink and each has a lock of its own: the lock around the group is what keeps
@@ -753,7 +762,7 @@ func propC13LockConcurrent(t *rapid.T) {
 		// the locked syncer under the buffer is ALSO written to directly (an error output, a second core): the buffer's
 		// flushes, write-throughs and syncs go through that same lock
 		shared := zapcore.Lock(raw)
-		bws = &zapcore.BufferedWriteSyncer{WS: shared, Size: 2, FlushInterval: time.Hour}
+		bws = &zapcore.BufferedWriteSyncer{WS: shared, Size: bufSize, FlushInterval: time.Hour}
 		lk, direct = bws, shared
 	case "lock(multi(shared lock,other))", "combine(shared lock,other)":
 		// a locked syncer that is a member of a locked group AND used on its own: both ways hold ITS lock
@@ -770,13 +779,13 @@ func propC13LockConcurrent(t *rapid.T) {
 	case "combine":
 		lk = zap.CombineWriteSyncers(raw)
 	case "lock(buffered)":
-		bws = &zapcore.BufferedWriteSyncer{WS: raw, Size: 2, FlushInterval: time.Hour}
+		bws = &zapcore.BufferedWriteSyncer{WS: raw, Size: bufSize, FlushInterval: time.Hour}
 		lk = zapcore.Lock(bws)
 	case "combine(buffered)":
-		bws = &zapcore.BufferedWriteSyncer{WS: raw, Size: 2, FlushInterval: time.Hour}
+		bws = &zapcore.BufferedWriteSyncer{WS: raw, Size: bufSize, FlushInterval: time.Hour}
 		lk = zap.CombineWriteSyncers(bws)
 	case "buffered(lock)":
-		bws = &zapcore.BufferedWriteSyncer{WS: zapcore.Lock(raw), Size: 2, FlushInterval: time.Hour}
+		bws = &zapcore.BufferedWriteSyncer{WS: zapcore.Lock(raw), Size: bufSize, FlushInterval: time.Hour}
 		lk = bws
 	}
 	var wg sync.WaitGroup
@@ -792,7 +801,9 @@ func propC13LockConcurrent(t *rapid.T) {
 				if (i+j)%syncEvery == 0 {
 					_ = lk.Sync()
 				} else {
-					_, _ = lk.Write([]byte("xyz"))
+					if n, err := lk.Write([]byte("xyz")); err == nil {
+						accepted.Add(int64(n))
+					}
 				}
 			}
 		}(i)
@@ -803,6 +814,11 @@ func propC13LockConcurrent(t *rapid.T) {
 	}
 	if n := sink.overlaps.Load(); n != 0 {
 		t.Fatalf("%d overlapping Write/Sync calls reached the sink (%s, sink %s)", n, wrap, shape)
+	}
+	if bws != nil && sink.nbytes.Load() != accepted.Load() {
+		// every route ends in the one sink exactly once here: what Write reported as consumed (n, nil) has reached it
+		// once the buffer is stopped - also the bytes of the very first Writes, made while the buffer set itself up
+		t.Fatalf("Writes reported %d bytes consumed without error, the sink holds %d after Stop (%s, buffer size %d, sink %s)", accepted.Load(), sink.nbytes.Load(), wrap, bufSize, shape)
 	}
 	if bws == nil && sink.writes.Load()+sink.syncs.Load() != int64(g*per*perCall) {
 		t.Fatalf("sink saw %d calls, want %d", sink.writes.Load()+sink.syncs.Load(), g*per*perCall)
